@@ -388,6 +388,12 @@ class LCG:
     def seed(self, s):
         self.s = s
 
+    def Random(self, seed=None):
+        """a private generator object (random.Random(seed)): another deterministic LCG"""
+        if isinstance(seed, (bytes, bytearray)):
+            seed = int.from_bytes(bytes(seed), "big")
+        return LCG((seed or 0) * 2 + 1)
+
 
 _CONSTRUCTIONS = ["schemes.CGKO06.SSE1.construction", "schemes.CGKO06.SSE2.construction",
                   "schemes.CJJ14.PiBas.construction", "schemes.CJJ14.PiPack.construction",
@@ -396,6 +402,24 @@ _CONSTRUCTIONS = ["schemes.CGKO06.SSE1.construction", "schemes.CGKO06.SSE2.const
                   "schemes.DP17.Pi.construction"]
 
 _SAVED = {}
+
+
+def uninstall_crypto():
+    """back to the real HMAC / AES / padding / FFX (os.urandom and random stay stubbed): used where labels have
+    to look random (C06 label order)"""
+    import toolkit.prf.hmac_prf as hp
+    import toolkit.symmetric_encryption.aes as aes
+    import toolkit.hash as th
+    import toolkit.prp.bitwise_fpe_prp as bfp
+    import toolkit.symmetric_padding as sp
+    from cryptography.hazmat.primitives import padding as _padding
+    if _SAVED:
+        hp.hmac = _SAVED["hmac"]
+        hp.hashlib = _hl
+        aes.Cipher, aes.algorithms, aes.modes = _SAVED["cipher"], _SAVED["algorithms"], _SAVED["modes"]
+        th.hashlib = _SAVED["hashlib"]
+        bfp.BitwiseFFX = _SAVED["ffx"]
+        sp.padding = _padding
 
 
 def install(ideal_ffx=True, lcg_seed=7):
